@@ -35,6 +35,9 @@ async fn verif_dir_witness() {
                    ("sub/both", "P:sub/both"), ("sub/both.gz", "Z:sub/both"), ("dir.gz", "Z:dir"), ("both.gz.gz", "Z:both.gz")] {
         std::fs::write(gzb.join(f), c.as_bytes()).unwrap();
     }
+    // a sibling that is neither a regular file nor a directory (a character device behind a symlink): "not a directory", so it is substituted
+    std::fs::write(gzb.join("chardev"), b"P:chardev").unwrap();
+    std::os::unix::fs::symlink("/dev/null", gzb.join("chardev.gz")).unwrap();
     let gz_on = http_serve::dir::FsDir::builder().for_path(&gzb).unwrap();
     let gz_off = http_serve::dir::FsDir::builder().auto_gzip(false).for_path(&gzb).unwrap();
     let text = std::fs::read_to_string(inp).unwrap();
